@@ -330,7 +330,7 @@ func checkConc(prop, tier string, seed uint64, spec propSpec, start time.Time) i
 				} else if nr > 1 {
 					args = append(args, "-firstuse", fmt.Sprint(round*nw+p.worker))
 				}
-				r := runWorker(p.t.bin, args, p.t.env(pfx), time.Duration(d)*time.Second+10*time.Minute)
+				r := runWorker(p.t.bin, args, p.t.env(pfx), 2*time.Duration(d)*time.Second+15*time.Minute)
 				r.cfg, r.worker = p.t.cfg.Name, p.worker
 				r.from, r.firstuse = from, -1
 				if p.t.family == "" && nr > 1 {
@@ -378,7 +378,7 @@ func checkConc(prop, tier string, seed uint64, spec propSpec, start time.Time) i
 				pfx := filepath.Join(b.Scratch, fmt.Sprintf("race-sweep-%d", i))
 				args := []string{"conc", "-config", t.cfg.Name, "-seed", fmt.Sprint(seed), "-worker", fmt.Sprint(100 + i), "-pool", poolFile,
 					"-ref", refFiles[t.cfg.Name], "-dur", fmt.Sprintf("%ds", sweepDur), "-family", "sweep", "-eidx", fmt.Sprint(i / min(2, len(cfgs))), "-en", fmt.Sprint((nw + 1) / min(2, len(cfgs)))}
-				r := runWorker(t.bin, args, t.env(pfx), time.Duration(sweepDur)*time.Second+10*time.Minute)
+				r := runWorker(t.bin, args, t.env(pfx), 2*time.Duration(sweepDur)*time.Second+15*time.Minute)
 				r.cfg, r.worker, r.firstuse, r.family = t.cfg.Name, 100+i, -1, "sweep"
 				if rep := readRaceLog(pfx); rep != "" {
 					r.raceLogs = []string{rep}
